@@ -209,7 +209,9 @@ def case_from_replay(d):
 
 
 def compare(cases, impls):
-    """Stage B. Returns (corr_failures, findings) — findings are (kind, what, replay) for the known error-path defect."""
+    """Stage B. Returns (corr_failures, findings) — findings are (kind, what, replay): the documented error is a
+    ValueError (repaired in /repo 91c42ba: the handler used to turn it into a TypeError); any other exception type
+    where the model says ValueError is reported as a violation of kind `missing-mn-error-is-<Type>`."""
     model = run_model(cases)
     fails, findings = [], []
     for i, (c, r) in enumerate(zip(cases, impls)):
